@@ -1,7 +1,7 @@
 #!/bin/bash
 # usage: tools/run_all.sh [quick|thorough] [ids...]   runs the registered checks, prints exit code and time per property
 TIER=${1:-quick}; shift
-cd "$(dirname "$0")/.."
+cd "$(dirname "$0")/.."; mkdir -p .work
 IDS="$@"
 [ -z "$IDS" ] && IDS=$(/venv/bin/python -c "import json;print(' '.join(c['property_id'] for c in json.load(open('MANIFEST.json'))['checks']))")
 for p in $IDS; do
